@@ -128,6 +128,10 @@ func runC08(c *Ctx) {
 			if !inPkg(fn) {
 				continue
 			}
+			if lc.Dead[fn] {
+				L.OkTrivial("R-C08-GUARD", "dead:"+fname(fn), "no call site in the library (reachable from tests only): cannot run concurrently with the API", fn.Pos())
+				continue
+			}
 			for _, g := range guardTable {
 				for _, acc := range fieldAccessesIn(fn, g.typ, g.field) {
 					var base ssa.Value
